@@ -51,6 +51,13 @@ thread_local! {
     static HANG: Cell<bool> = Cell::new(false);
 }
 
+pub fn reset_hang() {
+    HANG.with(|h| h.set(false));
+}
+pub fn was_hang() -> bool {
+    HANG.with(|h| h.get())
+}
+
 /// The device's RNG: 64-bit LCG (same as Driver/Mac.lean), optional forced leading draws, and a
 /// draw budget per call that turns an RNG-driven endless loop into a detectable "HANG".
 pub struct HRng {
